@@ -326,7 +326,7 @@ def replay_files(pid):
 
 
 def write_replay(pid, sub, case, detail, tier, vseed):
-    d = os.path.join(ROOT, 'out', 'replays', pid)
+    d = os.path.join(os.environ.get('PV_OUT') or os.path.join(ROOT, 'out'), 'replays', pid)
     os.makedirs(d, exist_ok=True)
     tag = ''.join(c if c.isalnum() else '_' for c in sub)[:60]
     h = '%016x' % case_hash(case)
@@ -354,7 +354,7 @@ def assert_repo(mod_penman):
 
 def main(pid, tier, vseed, replay=None):
     import shutil
-    os.environ['PV_TMP'] = os.path.join(ROOT, 'out', 'tmp', '%s-%d' % (pid, os.getpid()))
+    os.environ['PV_TMP'] = os.path.join(os.environ.get('PV_OUT') or os.path.join(ROOT, 'out'), 'tmp', '%s-%d' % (pid, os.getpid()))
     try:
         return _main(pid, tier, vseed, replay)
     finally:
@@ -547,8 +547,9 @@ def _main(pid, tier, vseed, replay=None):
         wall_s=round(time.time() - t0, 2),
         violations=len(violations),
     )
-    os.makedirs(os.path.join(ROOT, 'evidence'), exist_ok=True)
-    with open(os.path.join(ROOT, 'evidence', pid + '.json'), 'w', encoding='utf-8') as f:
+    evdir = os.environ.get('PV_EVIDENCE_DIR') or os.path.join(ROOT, 'evidence')
+    os.makedirs(evdir, exist_ok=True)
+    with open(os.path.join(evdir, pid + '.json'), 'w', encoding='utf-8') as f:
         json.dump(ev, f, ensure_ascii=True, indent=1, default=repr)
 
     for line in known_lines:
